@@ -370,6 +370,21 @@ Definition obj_new (s : schema) (style kwargs : dict) : tree * option err :=
   | inr e => (Leaf None, Some e)
   end.
 
+(* obj.style = val  (BaseGeo.style setter -> _validate_style): a dict is merged with update; an instance of
+   the object's style class is taken over as a copy (`takes`; before 9298ef3 it was silently ignored);
+   anything else raises ValueError.  The instance is given by its state. *)
+Inductive style_arg :=
+| SDict (d : dict)
+| SInst (inst : tree)
+| SWrong.
+
+Definition set_style (takes : bool) (s : schema) (st : tree) (a : style_arg) : tree * option err :=
+  match a with
+  | SDict d => update s st d true false
+  | SInst inst => if takes then (inst, None) else (st, None)
+  | SWrong => (st, Some EValue)
+  end.
+
 (* ---------------------------------------------------------------- show() and get_style *)
 (* display.py: style_kwargs = linearize_dict({k: v for k in kwargs if k.startswith("style")}, "_") *)
 Definition show_style_kwargs (kwargs : dict) : dict :=
